@@ -7,7 +7,7 @@ from email.utils import formatdate
 
 import re
 
-from . import core, util, resp, c02, c05, c08
+from . import core, util, resp, c02, c05, c08, c14
 
 PID = "C04"
 MANIFEST = dict(
@@ -72,9 +72,10 @@ def cgi_key(name):
     return k if k in ("CONTENT_TYPE", "CONTENT_LENGTH") else "HTTP_" + k
 
 
-def render(method, query, headers, client, body_chunks, path="/", root=""):
+def render(method, query, headers, client, body_chunks, path="/", root="", scheme="http", server=("testserver", 80)):
     body = b"".join(body_chunks)
-    env = util.wsgi_environ(method, path=path, script_name=root, query=query.decode("latin-1"), body=body)
+    env = util.wsgi_environ(method, path=path, script_name=root, query=query.decode("latin-1"), body=body, scheme=scheme,
+                            server=(server[0], str(server[1])))
     env.pop("REMOTE_ADDR", None)
     env.pop("REMOTE_PORT", None)
     if client:
@@ -83,7 +84,7 @@ def render(method, query, headers, client, body_chunks, path="/", root=""):
         env[cgi_key(k)] = v
     scope = util.http_scope(method, path=path, root_path=root, query=query,
                             headers=[(k.lower().encode("latin-1"), v.encode("latin-1")) for k, v in headers],
-                            client=tuple(client) if client else None)
+                            client=tuple(client) if client else None, scheme=scheme, server=(server[0], server[1]))
     chunks = list(body_chunks)
     msgs = [{"type": "http.request", "body": c, "more_body": i < len(chunks) - 1} for i, c in enumerate(chunks)] or \
         [{"type": "http.request", "body": b"", "more_body": False}]
@@ -316,6 +317,8 @@ def echo(name, status=200):
 def leaves_of(tree):
     if tree[0] == "leaf":
         yield tree[1]
+    elif tree[0] == "static":
+        yield ["static"] + list(tree[1])
     else:
         for _, sub in tree[1]:
             yield from leaves_of(sub)
@@ -430,32 +433,287 @@ def app_cases(tier, rng):
             yield "app-random", app_case(tree, path, rng.choice(["", "", "/root", "/r/s"]), host, hs, rng.choice(["GET", "POST", "DELETE"]))
 
 
+
+# ---------------------------------------------------------------- static leaves (model: C04/Static.v)
+# ["app", tree, method, root, path, headers, ["static", layout, query bytes, scheme, [server name, port]]]
+#   tree as above, plus the leaf ["static", [0 Files | 1 Pages, cacheability, max_age]]: the real baize.wsgi / baize.asgi
+#   Files / Pages on the directory of the layout.  os.stat is answered for the regular files of the layout from fixed
+#   nanosecond timestamps (c14's virtual stat), so that mtime, ctime and the float fields are the same in every run.
+
+NS = 10 ** 9
+S_BASE = 1_700_000_000
+STATIC_NSEC = [500_000_000, 0, 999_999_600, 300_000_000, 999_999_400]
+STATIC_GAP = [0, 100 * NS, 400_000_000, 3 * NS, 1]           # ctime - mtime
+CHUNK = 4096 * 64
+
+
+def _pattern(n):
+    return bytes((i * 7 + 3) % 251 for i in range(n))
+
+
+STATIC_LAYOUTS = {
+    "main": {"index.html": b"<h1>i</h1>", "a.txt": b"0123456789" * 3, "page.html": b"<p>p</p>", "x.html": b"<x/>",
+             "empty.txt": b"", "bin.dat": bytes(range(40)), "noext": b"no extension", "we ird.bin": b"\x00\x01\x02",
+             "sub/index.html": b"sub", "sub/inner.html": b"<i>inner</i>", "noidx/a.txt": b"na", "d.html/index.html": b"dh",
+             "both.html": b"file", "both/index.html": b"dir", "deep/d1/d2/f.txt": b"deep", "fifo": None},
+    "noindex": {"a.txt": b"abc", "sub/x.html": b"x"},
+    "chunk": {"one.dat": _pattern(CHUNK), "index.html": b"i"},
+    "chunk1": {"more.dat": _pattern(CHUNK + 1), "index.html": b"i"},
+    "chunk2": {"two.dat": _pattern(2 * CHUNK), "index.html": b"i"},
+}
+
+_static = {}
+_tmpl = {"tmpl": {}}
+
+
+def static_world(layout):
+    """the directory of a layout (built once per process), with what the model is told about it"""
+    import mimetypes
+    from hashlib import sha1
+    from urllib.parse import quote
+    key = (os.getpid(), layout)
+    w = _static.get(key)
+    if w is not None:
+        return w
+    root = os.path.join(util.tmpdir(), "c04static-" + layout, "root")
+    files = STATIC_LAYOUTS[layout]
+    os.makedirs(root, exist_ok=True)
+    nodes = {root: [1, 0]}
+    rows, ctypes = [], []
+    for j, (name, data) in enumerate(sorted(files.items())):
+        p = os.path.join(root, name)
+        d = os.path.dirname(p)
+        os.makedirs(d, exist_ok=True)
+        while d != root:
+            nodes[d] = [1, 0]
+            d = os.path.dirname(d)
+        if data is None:
+            if not os.path.exists(p):
+                os.mkfifo(p)
+            nodes[p] = [2, 0]
+            continue
+        if not os.path.exists(p):
+            with open(p, "wb") as f:
+                f.write(data)
+        mt = (S_BASE + 1000 * j) * NS + STATIC_NSEC[j % len(STATIC_NSEC)]
+        ct = mt + STATIC_GAP[j % len(STATIC_GAP)]
+        st = c14.vstat(_tmpl, p, len(data), mt - 5 * NS, mt, ct)
+        c14.VFS[p] = st
+        fid = j + 1
+        nodes[p] = [0, fid]
+        etag = sha1(("%s-%s" % (st.st_mtime, st.st_size)).encode("ascii")).hexdigest()
+        rows.append([fid, data, mt, ct, etag, int(st.st_mtime), int(st.st_ctime), formatdate(int(st.st_mtime), usegmt=True)])
+        ctype = mimetypes.guess_type(os.path.basename(p))[0] or "application/octet-stream"
+        disp = []
+        if ctype == "application/octet-stream":
+            dn = os.path.basename(p)
+            disp = ['attachment; filename="%s"; filename*=utf-8\'\'%s' % (dn, quote(dn))]
+        ctypes.append([p, ctype, disp])
+    os.stat = c14._vstat
+    w = {"dir": root, "cwd": os.getcwd(), "nodes": nodes, "rows": rows, "ctypes": ctypes}
+    _static[key] = w
+    return w
+
+
+def parse_date(text):
+    """what if_modified_since reads from the text: [] for empty / not a date, else [second]"""
+    from email.utils import parsedate_to_datetime
+    if not text:
+        return []
+    try:
+        return [int(parsedate_to_datetime(text).timestamp())]
+    except (TypeError, ValueError, OverflowError):
+        return []
+
+
+def enc_world(w, headers):
+    dates = [[v, parse_date(v)] for k, v in headers if k.lower() == "if-modified-since"]
+    return [w["cwd"], [[p, k, fid] for p, (k, fid) in sorted(w["nodes"].items())], w["rows"], w["ctypes"], dates, c02.BOUNDARY]
+
+
+STATIC_DECOYS = [["Accept", "*/*"], ["X-Range", "bytes=0-1"], ["If-Match", "*"], ["If-Unmodified-Since", "x"], ["Cookie", "a=1"]]
+STATIC_HOSTS = [None, "example.com", "h:8080", "[::1]:80", "[::1", "EXAMPLE.com", "", "a b", "x/y", "u@h", "h:", "h:abc"]
+STATIC_QUERIES = [b"", b"a=1&b=2", b"\xc3\xa9=1", b"\xff", b"x=%20y", b"a b", b"q=\xf0\x9f\x98\x80", b"\xed\xa0\x80", b"\xc0\xaf"]
+STATIC_PATHS = ["/a.txt", "/", "/index.html", "/page", "/page.html", "/sub", "/sub/", "/sub/inner", "/sub/index.html", "/missing",
+                "/missing/", "/noidx", "/noidx/", "/d.html", "/d.html/", "/empty.txt", "/bin.dat", "/noext", "/we ird.bin",
+                "/both", "/both/", "/both.html", "/deep/d1/d2/f.txt", "/deep/d1", "/fifo", "/../root/a.txt", "/../a.txt", "/a.txt/",
+                "/a.txt/x", "/./a.txt", "//a.txt", "/sub/../a.txt", "", "a.txt", "/x", "/x.html", "/index", "/sub/index", "/.."]
+
+
+def static_leaf(kind, cache="public", age=600):
+    return ["static", [kind, cache, age]]
+
+
+def static_case(tree, path, layout="main", headers=(), method="GET", root="", query=b"", scheme="http", server=("testserver", 80)):
+    return ["app", tree, method, root, path, [list(h) for h in headers], ["static", layout, query, scheme, list(server)]]
+
+
+def static_trees(kind):
+    """(label, tree, path prefix that leads to the static leaf, Host value it needs)"""
+    leaf = static_leaf(kind)
+    yield "root", leaf, "", None
+    yield "router", ["route", [["/api/{id:int}", echo("user")], ["{rest:any}", leaf]]], "", None
+    yield "subpaths", ["mount", [["/api", echo("A")], ["/static", leaf], ["", echo("D")]]], "/static", None
+    yield "hosts", ["hosts", [["example\\.com", echo("root")], ["static\\..*", leaf]]], "", "static.example.com"
+    yield "nested", ["hosts", [[".*", ["mount", [["/m", ["mount", [["/static", leaf], ["", echo("inner")]]]], ["", echo("outer", 201)]]]]]], "/m/static", None
+    yield "mount-router", ["mount", [["/s", ["route", [["/never", echo("n")], ["{p:any}", leaf]]]]]], "/s", None
+
+
+def cond_forms(etag, lm, msec, csec):
+    """header lists exercising the 304 decision for a file with these validators"""
+    bare = etag.strip('"')
+    d = lambda sec: formatdate(sec, usegmt=True)
+    inm = [etag, "W/" + etag, '"x", %s' % etag, 'W/"y" ,  W/%s\t, "z"' % etag, bare, "*", '"nomatch"', " * ", '"%s' % bare, "", "W/"]
+    ims = [d(msec - 10), d(msec), d(msec + 1), d(csec - 1), d(csec), d(csec + 10), "garbage", "", d(msec)[:-4],
+           "Tue, 14 Nov 2023 25:13:20 GMT", "Fri, 31 Dec 9999 23:59:59 GMT"]
+    for v in inm:
+        yield [["If-None-Match", v]]
+    for v in ims:
+        yield [["If-Modified-Since", v]]
+    for v, m in ((etag, d(msec - 10)), ('"nomatch"', d(csec + 10)), ("", d(csec + 10)), ("W/" + etag, "garbage"), ('"nomatch"', "")):
+        yield [["If-None-Match", v], ["If-Modified-Since", m]]
+        yield [["If-Modified-Since", m], ["If-None-Match", v]]
+
+
+def range_forms(etag, lm, size):
+    rs = ["bytes=0-4", "bytes=0-1,5-6", "bytes=%d-" % (size + 69), "bytes=2-1", "bytes=-5", "lines=1-2", "bytes=0-", "bytes=1-1", "",
+          "bytes=0-0,2-3,1-2", "bytes=%d-%d" % (max(size - 1, 0), size + 5), "bytes"]
+    for r in rs:
+        yield [["Range", r]]
+    for ifr in (etag, "W/" + etag, lm, formatdate(S_BASE - 100, usegmt=True), "garbage", "", etag.strip('"')):
+        yield [["Range", "bytes=1-3"], ["If-Range", ifr]]
+        yield [["If-Range", ifr], ["Range", "bytes=0-1,4-5"]]
+    yield [["If-Range", etag]]
+
+
+def vary_names(rng, hs):
+    return [[rng.choice([k, k.lower(), k.upper()]), v] for k, v in hs]
+
+
+def static_cases(tier, rng):
+    trees = {k: list(static_trees(k)) for k in (0, 1)}
+    # (a) every path of the pool x Files/Pages x every tree shape, plain GET
+    for kind in (0, 1):
+        for label, tree, prefix, host in trees[kind]:
+            for path in STATIC_PATHS:
+                hs = [["Host", host]] if host is not None else []
+                yield "static-paths", static_case(tree, prefix + path, headers=hs, root=rng.choice(["", "/root"]))
+    # (b) conditional requests, Range / If-Range and HEAD on served files, as root application and below the dispatchers
+    targets = {0: [("a.txt", "/a.txt"), ("empty.txt", "/empty.txt"), ("bin.dat", "/bin.dat"), ("sub/inner.html", "/sub/inner.html")],
+               1: [("page.html", "/page"), ("index.html", "/"), ("sub/index.html", "/sub/"), ("a.txt", "/a.txt"), ("both.html", "/both.html")]}
+    for kind in (0, 1):
+        for n, (name, url) in enumerate(targets[kind]):
+            etag, lm, msec, csec, size = static_validators("main", name)
+            conds, ranges = list(cond_forms(etag, lm, msec, csec)), list(range_forms(etag, lm, size))
+            forms = conds + ranges + [a + b for a in conds[::5] for b in ranges[::7]]
+            for k, hs in enumerate(forms):
+                shapes = trees[kind] if (tier == "thorough" or k % 6 == 0) else [trees[kind][(k + n) % len(trees[kind])]]
+                for label, tree, prefix, host in shapes:
+                    for method in (("GET", "HEAD") if (tier == "thorough" or k % 3 == 0) else ("GET",)):
+                        h2 = vary_names(rng, hs + rng.sample(STATIC_DECOYS, rng.randrange(0, 3)))
+                        if host is not None:
+                            h2.append(["Host", host])
+                        yield "static-conditional" if k < len(conds) else "static-range", \
+                            static_case(tree, prefix + url, headers=h2, method=method)
+    # (c) the redirect of Pages: query strings, Host header forms, schemes, server addresses, root paths
+    servers = [("testserver", 80), ("testserver", 8080), ("::1", 443), ("10.0.0.1", 80)]
+    for label, tree, prefix, host in trees[1]:
+        for path in ("/sub", "/noidx", "/both", "/deep/d1", "/d.html"):
+            for q in STATIC_QUERIES:
+                if host is not None:
+                    hosts = [host]
+                elif tier == "thorough" or path == "/sub":
+                    hosts = STATIC_HOSTS
+                else:
+                    hosts = STATIC_HOSTS[:3]
+                for h in hosts:
+                    hs = [["Host", h]] if h is not None else []
+                    yield "static-redirect", static_case(tree, prefix + path, headers=hs, query=q, root=rng.choice(["", "/root", "/r s"]),
+                                                         scheme=rng.choice(["http", "https"]), server=rng.choice(servers))
+    # (d) other configurations and layouts: cacheability, max_age, a directory without index page
+    for kind in (0, 1):
+        for cache, age in (("private", 0), ("no-cache", 31536000), ("no-store", -1), ("public", 10 ** 30)):
+            for path in ("/a.txt", "/sub", "/missing", "/"):
+                for hs in ([], [["If-None-Match", "*"]], [["Range", "bytes=0-0"]]):
+                    yield "static-config", static_case(static_leaf(kind, cache, age), path, headers=hs)
+        for path in ("/", "/a.txt", "/sub", "/sub/", "/sub/x", "/index.html"):
+            yield "static-layout", static_case(static_leaf(kind), path, layout="noindex")
+    # (e) files of exactly one chunk, one chunk + 1 byte and two chunks: whole, HEAD, ranges across the chunk border
+    big = [("chunk", "one.dat", CHUNK), ("chunk1", "more.dat", CHUNK + 1), ("chunk2", "two.dat", 2 * CHUNK)]
+    for layout, name, size in (big if tier == "thorough" else big[:2]):
+        for hs in ([], [["Range", "bytes=%d-" % (CHUNK - 1)]], [["Range", "bytes=0-%d" % (CHUNK - 1)]], [["Range", "bytes=5-10,%d-%d" % (CHUNK - 2, CHUNK + 2)]]):
+            for method in ("GET", "HEAD"):
+                if method == "HEAD" and hs and tier == "quick":
+                    continue
+                yield "static-chunk", static_case(["mount", [["/static", static_leaf(0)]]], "/static/" + name, layout=layout, headers=hs, method=method)
+    # (f) random
+    n = 400 if tier == "quick" else 8000
+    for _ in range(n):
+        kind = rng.randrange(2)
+        label, tree, prefix, host = rng.choice(trees[kind])
+        name, url = rng.choice(targets[kind])
+        etag, lm, msec, csec, size = static_validators("main", name)
+        hs = []
+        if rng.random() < 0.5:
+            hs += rng.choice(list(cond_forms(etag, lm, msec, csec)))
+        if rng.random() < 0.5:
+            hs += rng.choice(list(range_forms(etag, lm, size)))
+        hs += rng.sample(STATIC_DECOYS, rng.randrange(0, 3))
+        rng.shuffle(hs)
+        hs = vary_names(rng, hs)
+        if host is not None and rng.random() < 0.9:
+            hs.append(["Host", host])
+        elif rng.random() < 0.4:
+            hs.append(["Host", rng.choice([h for h in STATIC_HOSTS if h is not None])])
+        path = url if rng.random() < 0.6 else rng.choice(STATIC_PATHS)
+        yield "static-random", static_case(tree, prefix + path, headers=hs, method=rng.choice(["GET", "GET", "HEAD", "POST"]),
+                                           root=rng.choice(["", "/root"]), query=rng.choice(STATIC_QUERIES),
+                                           scheme=rng.choice(["http", "https", "ws"]), server=rng.choice([("testserver", 80), ("h2", 8443)]))
+
+
+def static_validators(layout, name):
+    """the validators of a file of a layout, computed as static_world does but without touching the disk
+    (cases() runs in the parent process)"""
+    from hashlib import sha1
+    files = STATIC_LAYOUTS[layout]
+    j = sorted(files).index(name)
+    mt = (S_BASE + 1000 * j) * NS + STATIC_NSEC[j % len(STATIC_NSEC)]
+    ct = mt + STATIC_GAP[j % len(STATIC_GAP)]
+    size = len(files[name])
+    etag = sha1(("%s-%s" % (c14.fl(mt), size)).encode("ascii")).hexdigest()
+    return '"%s"' % etag, formatdate(int(c14.fl(mt)), usegmt=True), int(c14.fl(mt)), int(c14.fl(ct)), size
+
+
 def cases(tier, rng):
     yield from req_cases(tier, rng)
     yield from derived_cases(tier, rng)
     yield from program_cases(tier, rng)
     yield from app_cases(tier, rng)
+    yield from static_cases(tier, rng)
 
 
 def search_cases(tier, rng, mism):
     yield from cases("thorough", rng)
 
 
-def enc_tree(tree, patterns):
+def enc_tree(tree, patterns, directory=None):
     kind, arg = tree
+    if kind == "static":
+        k, cache, age = arg
+        return ["static", [k, directory, cache, age]]
     if kind == "leaf":
         return ["leaf", ["fixed", resp.encode(arg[1])] if arg[0] == "fixed" else list(arg)]
     if kind == "hosts":
         out = []
         for pat, sub in arg:
             patterns.append(pat)
-            out.append([len(patterns) - 1, enc_tree(sub, patterns)])
+            out.append([len(patterns) - 1, enc_tree(sub, patterns, directory)])
         return ["hosts", out]
-    return [kind, [[k, enc_tree(sub, patterns)] for k, sub in arg]]
+    return [kind, [[k, enc_tree(sub, patterns, directory)] for k, sub in arg]]
 
 
 def route_texts(tree):
-    if tree[0] == "leaf":
+    if tree[0] in ("leaf", "static"):
         return
     for k, sub in tree[1]:
         if tree[0] == "route":
@@ -464,13 +722,18 @@ def route_texts(tree):
 
 
 def enc_app(case):
-    _, tree, method, root, path, headers = case
+    _, tree, method, root, path, headers = case[:6]
     patterns = []
-    t = enc_tree(tree, patterns)
+    directory = static_world(case[6][1])["dir"] if len(case) == 7 else None
+    t = enc_tree(tree, patterns, directory)
     texts = [""] + [v for k, v in headers if k.lower() == "host" and v != ""]
     rows = [[x, [1 if re.fullmatch(p, x) is not None else 0 for p in patterns]] for x in dict.fromkeys(texts)]
     chars = sorted({ch for r in route_texts(tree) for ch in r if ord(ch) >= 128})
-    return ["app", c08.int_limit(), [[ord(ch), c08.char_class(ch)] for ch in chars], t, method, root, path, [list(h) for h in headers], rows]
+    out = ["app", c08.int_limit(), [[ord(ch), c08.char_class(ch)] for ch in chars], t, method, root, path, [list(h) for h in headers], rows]
+    if len(case) == 7:
+        _, layout, query, scheme, server = case[6]
+        out += [query, scheme, [server[0], server[1]], enc_world(static_world(layout), headers)]
+    return out
 
 
 def enc_case(case):
@@ -589,13 +852,16 @@ def echo_text(name, request, kroot, kpath, kparams):
     return "|".join([name, request.method, request.get(kroot, ""), request.get(kpath, ""), params, headers])
 
 
-def build_tree(tree, iface):
+def build_tree(tree, iface, directory=None):
     """the live application of a tree, on one interface"""
     if iface == "wsgi":
         import baize.wsgi as B
     else:
         import baize.asgi as B
     kind, arg = tree
+    if kind == "static":
+        k, cache, age = arg
+        return (B.Files if k == 0 else B.Pages)(directory, cacheability=cache, max_age=age)
     if kind == "leaf":
         if arg[0] == "echo":
             _, name, status = arg
@@ -615,14 +881,58 @@ def build_tree(tree, iface):
                 return resp.build(recipe, "asgi")
         return B.request_response(view)
     cls = {"route": B.Router, "mount": B.Subpaths, "hosts": B.Hosts}[kind]
-    return cls(*[(k, build_tree(sub, iface)) for k, sub in arg])
+    return cls(*[(k, build_tree(sub, iface, directory)) for k, sub in arg])
 
 
 def canon_answer(x):
     return ["exc", x[1]] if x and x[0] == "exc" else x
 
 
+def answer_of_wsgi(app, env):
+    """like response_of_wsgi, but the header list stays in the order it was sent, and an HTTPException that
+    reaches the server is an observation of its own"""
+    from baize.exceptions import HTTPException
+    starts, items, exc = util.call_wsgi(app, env)
+    if exc is not None:
+        if isinstance(exc, HTTPException):
+            return ["http", exc.status_code] + ([repr(exc.headers), repr(exc.content)] if exc.headers or exc.content is not None else [])
+        return ["exc", type(exc).__name__]
+    if len(starts) != 1:
+        return ["starts", len(starts)]
+    status, headers = starts[0]
+    return [int(status.split(" ")[0]), [[k.lower(), v] for k, v in headers], b"".join(x for _, x in items)]
+
+
+def answer_of_asgi(app, scope, msgs=None):
+    from baize.exceptions import HTTPException
+    sent, exc = util.call_asgi(app, scope, msgs)
+    if exc is not None:
+        if isinstance(exc, HTTPException):
+            return ["http", exc.status_code] + ([repr(exc.headers), repr(exc.content)] if exc.headers or exc.content is not None else [])
+        return ["exc", type(exc).__name__]
+    if not sent or sent[0]["type"] != "http.response.start":
+        return ["nostart"]
+    body = b"".join(m.get("body", b"") for m in sent[1:])
+    return [int(sent[0]["status"]), [[k.decode("latin-1").lower(), v.decode("latin-1")] for k, v in sent[0].get("headers", [])], body]
+
+
+def impl_static(case):
+    _, tree, method, root, path, headers, (_, layout, query, scheme, server) = case
+    import baize.wsgi.responses as W
+    import baize.asgi.responses as A
+    W.random_choices = A.random_choices = lambda pop, k: list(c02.BOUNDARY[:k])
+    world = static_world(layout)
+    try:
+        app_w, app_a = build_tree(tree, "wsgi", world["dir"]), build_tree(tree, "asgi", world["dir"])
+    except Exception as e:  # noqa
+        return [["cfg"]]
+    env, scope, msgs = render(method, query, headers, ["127.0.0.1", 9], [], path=path, root=root, scheme=scheme, server=server)
+    return [answer_of_wsgi(app_w, env), answer_of_asgi(app_a, scope, msgs)]
+
+
 def impl_app(case):
+    if len(case) == 7:
+        return impl_static(case)
     _, tree, method, root, path, headers = case
     import baize.wsgi.responses as W
     import baize.asgi.responses as A
@@ -706,6 +1016,21 @@ def oracle(case, obs):
         if obs[0] != obs[1]:
             i = [x != y for x, y in zip(obs[0], obs[1])].index(True)
             return ("request-view-differs-" + ("method", "headers", "client", "body")[i], "wsgi %r / asgi %r" % (obs[0][i], obs[1][i]))
+        return None
+    if case[0] == "app" and len(case) == 7:
+        # static leaves: the same abstract request gets the same answer on both interfaces — status, header list in the
+        # order it is sent, body bytes, or the same HTTPException — and it is a response or an HTTPException
+        if len(obs) != 2:
+            return ("static-cfg", "the tree cannot be constructed: %r" % (obs,))
+        w, a = obs
+        if w != a:
+            if isinstance(w[0], int) and isinstance(a[0], int):
+                what = "status" if w[0] != a[0] else ("headers" if w[1] != a[1] else "body")
+            else:
+                what = "outcome"
+            return ("static-differs-" + what, "wsgi %r / asgi %r" % (w[:2], a[:2]))
+        if not (isinstance(w[0], int) or (w[0] == "http" and len(w) == 2)):
+            return ("static-no-answer", "both interfaces fail alike: %r" % (w,))
         return None
     if case[0] == "app":
         if len(obs) != 2:
